@@ -168,7 +168,7 @@ def self_writes(p, f, seen=None):
 def _stateless(ck, p, byk):
     rule = "R-C05-stateless"
     impls = p.impls_of_method(LINT)
-    ck.floor(rule, "impls of Linter::lint", len(impls), 28)
+    ck.floor(rule, "impls of Linter::lint", len(impls), 16)
     for f in impls:
         ck.saw(f)
         ty = last((f.get("impl_self_head") or "?"))
@@ -212,8 +212,8 @@ def _freeze(ck, p):
                 ck.refuted(rule, key, im["span"], "%s (methods take &self) contains interior mutability: %s via %s" % (last(head), ty, "/".join(path)))
             else:
                 ck.proved(rule, key, im["span"], "no Cell/RefCell/Mutex/Atomic reachable in the type graph")
-    ck.floor(rule, "Pattern implementor structs", n["Pattern"], 22)
-    ck.floor(rule, "PatternLinter implementor structs", n["PatternLinter"], 40)
+    ck.floor(rule, "Pattern implementor structs", n["Pattern"], 12)
+    ck.floor(rule, "PatternLinter implementor structs", n["PatternLinter"], 24)
 
 
 # ---------------------------------------------------------------------------------------------------
@@ -253,7 +253,7 @@ def _statics(ck, p, byk):
             ck.proved(rule, key, s["span"], "registered %s static (%s); justification checked below" % (STATIC_REG[reg[0]], reg[0]))
         else:
             ck.refuted(rule, key, s["span"], "static with interior mutability (%s) that is not a registered scratch/memo: hidden state shared by every linter on the thread/process" % im[0][1])
-    ck.floor(rule, "statics in the workspace (without logging/CLI plumbing)", n, 20)
+    ck.floor(rule, "statics in the workspace (without logging/CLI plumbing)", n, 10)
     # justifications
     f = byk.get("harper_core::edit_distance::edit_distance_min_alloc")
     if ck.anchor(rule, "edit_distance_min_alloc", f):
@@ -563,7 +563,7 @@ def _order(ck, p, byk):
             if FIXED.search(rty):
                 continue
             sites.setdefault((keyname(p, f), m), (f, t, rty))
-    ck.floor(rule, "iteration sites over randomly seeded hash containers", len(sites), 10)
+    ck.floor(rule, "iteration sites over randomly seeded hash containers", len(sites), 5)
     for (k, m), (f, t, rty) in sorted(sites.items()):
         ck.saw(f)
         ck.callsites += 1
@@ -588,7 +588,7 @@ def _order(ck, p, byk):
             for bi, t in b.calls():
                 if def_of(t) == "harper_core::spell::dictionary::Dictionary::words_iter" or inst_of(t) == "harper_core::spell::word_map::{impl}::iter":
                     consumers.append((f, bi, t))
-    ck.floor(rule, "consumers of the word-map order", len(consumers), 4)
+    ck.floor(rule, "consumers of the word-map order", len(consumers), 2)
     for f, bi, t in consumers:
         ck.saw(f)
         k = keyname(p, f)
